@@ -3,6 +3,7 @@ package rules
 import (
 	"fmt"
 	"go/token"
+	"go/types"
 	"strings"
 	"verifcheck/internal/core"
 
@@ -270,6 +271,13 @@ func ruleAtomicOnly(ctx *Ctx, rule string) {
 				for _, ref := range *fa.Referrers() {
 					cn := ssaq.StaticCalleeName(ref)
 					if strings.HasPrefix(cn, "sync/atomic.") {
+						// a Store of a value computed from a Load is a
+						// read-modify-write in two steps: a charge that lands
+						// between them is overwritten (lost update)
+						if ci, ok := ref.(ssa.CallInstruction); ok && strings.HasPrefix(cn, "sync/atomic.Store") && len(ci.Common().Args) == 2 &&
+							dependsOnAtomicLoadOf(ci.Common().Args[1], rl) {
+							bad = fmt.Sprintf("%s at %s stores a value computed from an earlier atomic load of the budget: the two steps are not one atomic update, a concurrent canRead between them is lost", cn, q.Pos(ssaq.InstrPos(ref)))
+						}
 						continue
 					}
 					if _, isDbg := ref.(*ssa.DebugRef); isDbg {
@@ -288,6 +296,35 @@ func ruleAtomicOnly(ctx *Ctx, rule string) {
 	if n == 0 {
 		r.Fail("%s: no access of Message.rlimit found", rule)
 	}
+}
+
+// dependsOnAtomicLoadOf: v is computed (through any chain of operands inside
+// the function) from the result of a sync/atomic.Load* of field fld.
+func dependsOnAtomicLoadOf(v ssa.Value, fld *types.Var) bool {
+	seen := map[ssa.Value]bool{}
+	var walk func(x ssa.Value, depth int) bool
+	walk = func(x ssa.Value, depth int) bool {
+		if x == nil || seen[x] || depth > 40 {
+			return false
+		}
+		seen[x] = true
+		if c, ok := x.(*ssa.Call); ok && strings.HasPrefix(ssaq.StaticCalleeName(c), "sync/atomic.Load") && len(c.Call.Args) == 1 {
+			if fa, ok := c.Call.Args[0].(*ssa.FieldAddr); ok && ssaq.FieldVar(fa) == fld {
+				return true
+			}
+		}
+		in, ok := x.(ssa.Instruction)
+		if !ok {
+			return false
+		}
+		for _, op := range in.Operands(nil) {
+			if op != nil && *op != nil && walk(*op, depth+1) {
+				return true
+			}
+		}
+		return false
+	}
+	return walk(v, 0)
 }
 
 // Builders that may start an object with the maximum depth.
